@@ -469,6 +469,8 @@ PROPS["C28"]["units"].append(U("harness", "cluster", "TestVerif_C28_ClusterRetry
 PROPS["C28"]["level_text"] += " Cluster client: the same model over Do/DoMulti/DoCache/DoMultiCache of keyed read-only, write and ToRetryable commands against a fake Redis Cluster, with LOADING/TRYAGAIN/CLUSTERDOWN, ordinary ERR, nil and connection drops per arrival and RetryDelay tables that turn negative after some attempts: every further send of a command needs a retryable failure of the previous one, a retryable command, retries enabled and a non-negative RetryDelay answer for that command in between."
 PROPS["C28"]["level_note"] = PROPS["C28"]["level_note"].replace("Single client in this unit. ", "Single client in the first unit, cluster client in the second (static topology, so redirect rounds do not mix with retry rounds; RetryDelay tables depend on the attempt number only, because a cluster batch is retried with the largest delay of its members). ")
 
+PROPS["C25"]["units"].append(U("harness", "cluster", "TestVerif_C25_ClusterDedicated", T(400, timeout=300), T(3000, shards=16, timeout=1500), variants=QUEUES))
+
 # ---- END PROPS (new entries go above this line)
 
 # every property without a check is listed here with its reason (kept current while building)
